@@ -44,12 +44,16 @@ SPEC = {
                         "by the oracle (library vs itself on all n! orders) and the correspondence (model vs library on sampled orders)"],
     },
     "C05": {
-        "LEAN": {"modules": ["GfaProofs.C05"], "support": ["GfaModel.Graph", "GfaProofs.C02"],
-                 "theorems": ["Gfa.C05.cascade_sound", "Gfa.C05.cascade_complete", "Gfa.C05.rm_lines", "Gfa.C05.rm_kept_unchanged",
+        "LEAN": {"modules": ["GfaProofs.C05", "GfaProofs.C05Rename"], "support": ["GfaModel.Graph", "GfaProofs.C02", "GfaProofs.C02Rename"],
+                 "theorems": ["Gfa.C05.rename_frame", "Gfa.C05.rename_mentions", "Gfa.C05.rename_carrier", "Gfa.C05.renameIn_frame",
+                              "Gfa.C05.cascade_sound", "Gfa.C05.cascade_complete", "Gfa.C05.rm_lines", "Gfa.C05.rm_kept_unchanged",
                               "Gfa.C05.rm_set_rest", "Gfa.C05.rm_name_gone", "Gfa.C02.rmIdx_closed", "Gfa.C02.dropItems_itemRefs",
                               "Gfa.C09.rename_nodup", "Gfa.G.renameIn_name"]},
         "ASSUMPTIONS": ["the refinement 'state = parse of the denoted text' is decided by the oracle (independent text model + reparse) and the "
-                        "correspondence; proved in Lean: the removal cascade is exactly the least closed set of dependants, the rest is textually unchanged"],
+                        "correspondence; proved in Lean: the removal cascade is exactly the least closed set of dependants, the rest is textually unchanged; "
+                        "a rename substitutes the identifier in every mention (rename_mentions), the renamed line carries the new identifier "
+                        "(rename_carrier) and every line that does not mention the old identifier is literally unchanged (rename_frame)",
+                        "set/delete of a tag is not modelled in Lean (oracle only)"],
     },
     "C04": {
         "LEAN": {"modules": ["GfaProofs.Bridge.Regex", "GfaProofs.Lemmas.Regex", "GfaProofs.C20"],
